@@ -33,6 +33,21 @@ def relay(values):
     return len(values)
 
 
+def mutate(v):
+    """change a container IN PLACE so that its type changes (new element type, emptied dict, new key type)"""
+    t = type(v)
+    if t is list:
+        v.append(b"m")
+    elif t is dict:
+        if v:
+            v.clear()
+        else:
+            v[2.5] = b"m"
+    elif t is set:
+        v.add(b"m")
+    return v
+
+
 def deco(f):
     @functools.wraps(f)
     def wrapper(*a, **k):
